@@ -47,6 +47,10 @@ type world struct {
 	dialFails  atomic.Int64 // number of upcoming dials that must fail
 	firstOps   atomic.Int64
 	drops      atomic.Int64 // server-drops-repeatedly: number of requests still to be dropped after reading
+	kind2      string       // double-fault family: fault on the SECOND client connection ("" = none)
+	at2        int
+	fired2     atomic.Bool
+	fired2Err  error
 	clientConn []*memnet.Conn
 }
 
@@ -102,6 +106,25 @@ func newWorld(c *core.Ctx, kind string, at int) *world {
 	return w
 }
 
+// clientFault returns the fault of a client-side kind for this operation (nil if the kind does not apply to it).
+func clientFault(kind, op string) *memnet.Fault {
+	switch {
+	case kind == "read-eof" && op == "read":
+		return &memnet.Fault{Err: io.EOF}
+	case kind == "read-closed" && op == "read":
+		return &memnet.Fault{Err: &net.OpError{Op: "read", Net: "mem", Err: net.ErrClosed}}
+	case kind == "read-reset" && op == "read":
+		return &memnet.Fault{Err: &net.OpError{Op: "read", Net: "mem", Err: os.NewSyscallError("read", syscall.ECONNRESET)}}
+	case kind == "write-epipe" && op == "write":
+		return &memnet.Fault{Err: &net.OpError{Op: "write", Net: "mem", Err: os.NewSyscallError("write", syscall.EPIPE)}}
+	case kind == "write-reset" && op == "write":
+		return &memnet.Fault{Err: &net.OpError{Op: "write", Net: "mem", Err: os.NewSyscallError("write", syscall.ECONNRESET)}}
+	case kind == "short-write" && op == "write":
+		return &memnet.Fault{Err: &net.OpError{Op: "write", Net: "mem", Err: os.NewSyscallError("write", syscall.EPIPE)}, Short: 5}
+	}
+	return nil
+}
+
 func (w *world) dialer(ctx context.Context) (net.Conn, error) {
 	if w.dialFails.Load() > 0 {
 		w.dialFails.Add(-1)
@@ -115,6 +138,23 @@ func (w *world) dialer(ctx context.Context) (net.Conn, error) {
 	w.mu.Lock()
 	w.clientConn = append(w.clientConn, conn)
 	w.mu.Unlock()
+	if n == 2 && w.kind2 != "" {
+		conn.SetInject(func(op string, idx int) *memnet.Fault {
+			if w.fired2.Load() && w.fired2Err != nil {
+				return &memnet.Fault{Err: w.fired2Err}
+			}
+			if idx < w.at2 {
+				return nil
+			}
+			f := clientFault(w.kind2, op)
+			if f != nil {
+				w.fired2Err = f.Err
+				w.fired2.Store(true)
+				conn.Close()
+			}
+			return f
+		})
+	}
 	if n == 1 {
 		conn.SetInject(func(op string, idx int) *memnet.Fault {
 			w.firstOps.Store(int64(idx + 1))
@@ -172,7 +212,38 @@ func (w *world) call(cl *kmipclient.Client, id string) outcome {
 }
 
 // judge applies the per-call and recovery rules to a sequence of outcomes (server reachable throughout).
-func (w *world) judge(label string, outs []outcome) {
+func (w *world) judge(label string, outs []outcome) { w.judgeN(label, outs, 1) }
+
+// judgeN: at most maxRun consecutive failing calls (one per injected fault); transmissions bounded.
+func (w *world) judgeN(label string, outs []outcome, maxRun int) {
+	if maxRun > 1 {
+		run := 0
+		for _, o := range outs {
+			w.c.Count("calls", 1)
+			if o.err == nil {
+				if o.got != o.id {
+					w.c.Violation("C11:wrong-response:"+w.kind, fmt.Sprintf("call %s returned %q (%s)", o.id, o.got, label), nil)
+				}
+				run = 0
+				continue
+			}
+			w.c.Count("calls_failed", 1)
+			run++
+			if run > maxRun {
+				w.c.Violation("C11:no-recovery:"+w.kind+"+"+w.kind2, fmt.Sprintf("%d consecutive calls fail although only %d connections were faulty and the server is reachable; the last: %v (%s)", run, maxRun, o.err, label),
+					map[string]any{"outcomes": fmt.Sprint(outs)})
+				return
+			}
+		}
+		w.mu.Lock()
+		defer w.mu.Unlock()
+		for id, n := range w.tx {
+			if id != "discover" && n > 4 {
+				w.c.Violation("C11:too-many-transmissions:"+w.kind+"+"+w.kind2, fmt.Sprintf("request %s was transmitted %d times (%s)", id, n, label), nil)
+			}
+		}
+		return
+	}
 	prevFailed := false
 	for _, o := range outs {
 		w.c.Count("calls", 1)
@@ -268,6 +339,58 @@ func matrix(c *core.Ctx, r *core.Rand, i int) {
 	label := fmt.Sprintf("m%d-%s@%d", i, kind, at)
 	c.Distinct(core.Hash64("matrix", kind, fmt.Sprint(at)))
 	scenario(c, kind, at, label)
+}
+
+// doubleFault: the first connection fails at (kind1, op a1) and the fresh connection that replaces it fails too, at
+// (kind2, op a2). The third connection is sound: at most two consecutive calls may fail.
+func doubleFault(c *core.Ctx, r *core.Rand, i int) {
+	const n1, n2 = 14, 10
+	if !c.Thorough() {
+		i = r.Intn(len(kinds) * n1 * 6 * n2) // quick: a seeded sample of the same space
+	}
+	kind1 := kinds[i%len(kinds)]
+	at1 := (i / len(kinds)) % n1
+	kind2 := kinds[(i/(len(kinds)*n1))%6]
+	at2 := (i / (len(kinds) * n1 * 6)) % n2
+	label := fmt.Sprintf("df-%s@%d+%s@%d", kind1, at1, kind2, at2)
+	c.Distinct(core.Hash64("double", label))
+	base := len(census.Goroutines())
+	w := newWorld(c, kind1, at1)
+	w.kind2, w.at2 = kind2, at2
+	var cl *kmipclient.Client
+	var err error
+	for attempt := 1; attempt <= 3 && cl == nil; attempt++ {
+		if p, pv, st := core.Guard(func() { cl, err = kmipclient.Dial("mem", kmipclient.WithDialerUnsafe(w.dialer)) }); p {
+			c.Violation(core.PanicSig(pv, st), fmt.Sprintf("Dial panicked (%s): %v", label, pv), map[string]any{"stack": st})
+			w.srv.Close()
+			return
+		}
+		if err != nil {
+			cl = nil
+			c.Count("dial_failed_under_fault", 1)
+		}
+	}
+	if cl == nil {
+		c.Violation("C11:no-recovery:"+kind1+"+"+kind2, fmt.Sprintf("a third Dial fails too although its connection is fault-free: %v (%s)", err, label), nil)
+		w.srv.Close()
+		return
+	}
+	var outs []outcome
+	for k := 1; k <= 5; k++ {
+		outs = append(outs, w.call(cl, fmt.Sprintf("%s-call%d", label, k)))
+	}
+	w.judgeN(label, outs, 2)
+	c.Count("double_fault_scenarios", 1)
+	if w.fired.Load() && w.fired2.Load() {
+		c.Count("double_faults_both_fired", 1)
+	}
+	core.Guard(func() { cl.Close() })
+	if o := w.call(cl, label+"-after-close"); o.err == nil {
+		c.Violation("C11:call-after-close-succeeds:"+kind1+"+"+kind2, fmt.Sprintf("a call on a closed client succeeds (%s)", label), nil)
+	}
+	core.Guard(func() { cl.Close() })
+	w.srv.Close()
+	leak(c, base, kind1+"+"+kind2, label)
 }
 
 // repeatedDrops: a reachable server drops the connection right after reading the request, K times in a
@@ -618,33 +741,39 @@ func Spec() *core.Spec {
 			"Monitors: panic/crash, own-id response or error, never two consecutive failed calls, <= 4 transmissions per request, calls fail after Close, goroutine census after Close. a response whose frame-completing Read is handed over only when the connection is closed (call abandoned by cancel, deadline or Close); distinct = distinct (scenario kind, fault kind, operation index)",
 		Assumptions: []string{"recovery rule used: while the server is reachable and new connections are fault-free, two consecutive calls never both fail (a call pending at, or first after, the fault may fail)",
 			"goroutines gone = none with a library frame within 10 s of closing the client and the server (bounded progress)"},
-		Required: []string{"calls", "late_responses_held", "faults_fired.read-eof", "faults_fired.read-reset", "faults_fired.write-epipe", "faults_fired.short-write", "faults_fired.server-closes-after-reply", "faults_fired.server-closes-after-read",
+		Required: []string{"calls", "late_responses_held", "double_faults_both_fired", "faults_fired.read-eof", "faults_fired.read-reset", "faults_fired.write-epipe", "faults_fired.short-write", "faults_fired.server-closes-after-reply", "faults_fired.server-closes-after-read",
 			"census_checks", "calls_after_close", "repeated_drops.k4", "repeated_drops.k5", "dialer_failure_scenarios", "concurrent_scenarios", "directed.terminate-before-send-select", "directed.close-in-flight"},
 		Shards: func(string) int { return 8 },
 		Families: []core.Family{
 			{Name: "matrix", Exhaustive: true, N: func(string) int { return maxOps * len(kinds) }, Run: matrix, Timeout: 40 * time.Second},
 			{Name: "repeated-drops", Exhaustive: true, N: func(string) int { return 16 }, Run: repeatedDrops, Timeout: 40 * time.Second},
+			{Name: "double-fault", N: func(tier string) int {
+				if tier == core.Thorough {
+					return len(kinds) * 14 * 6 * 10
+				}
+				return 120
+			}, Run: doubleFault, Timeout: 40 * time.Second},
 			{Name: "late-response", N: func(tier string) int {
 				if tier == core.Thorough {
-					return 600
+					return 3000
 				}
 				return 30
 			}, Run: lateResponse, Timeout: 60 * time.Second},
 			{Name: "dialer-failures", N: func(tier string) int {
 				if tier == core.Thorough {
-					return 600
+					return 3000
 				}
 				return 36
 			}, Run: dialerFails, Timeout: 40 * time.Second},
 			{Name: "concurrent", N: func(tier string) int {
 				if tier == core.Thorough {
-					return 1200
+					return 6000
 				}
 				return 48
 			}, Run: concurrent, Timeout: 60 * time.Second},
 			{Name: "directed", N: func(tier string) int {
 				if tier == core.Thorough {
-					return 600
+					return 3000
 				}
 				return 30
 			}, Run: directed, Timeout: 40 * time.Second},
